@@ -25,7 +25,7 @@ func init() {
 			"(f) reset_relays empties the inherited relays before they are merged, a disabled proposer-relay is not kept, unknown addresses are generated through the tier chain, unmentioned inherited relays are kept; " +
 			"(g) the version dispatch has arms for the unversioned and version-2 documents and an error default; (h) the top-level fee recipient and gas limit fall back to Vouch's own values when absent; " +
 			"(i) for every JSON shadow struct the fields written by MarshalJSON are the fields read by UnmarshalJSON and unit scalings are inverse pairs (Milliseconds()/x time.Millisecond, Div(weiPerETH)/Mul(weiPerETH)). " +
-			"Added with the third seeding round: (k) a legacy builder's relay list is read only under its own Enabled flag; (l) a resolver that remembers results keys them by every parameter it uses; (b) also accepts a first-present helper called with the tiers in precedence order. Added with the fourth seeding round: (m) the proposers list keeps document order; (n) tiers are written least specific first onto a relay object. NOT decided: the value-level lattice for arbitrary documents, regexp semantics, round-trip equality of meaning.",
+			"Added with the third seeding round: (k) a legacy builder's relay list is read only under its own Enabled flag; (l) a resolver that remembers results keys them by every parameter it uses; (b) also accepts a first-present helper called with the tiers in precedence order. Added with the fourth seeding round: (m) the proposers list keeps document order; (n) tiers are written least specific first onto a relay object. Added with the fifth seeding round: (f, extended) every relay inherited from the fallback is recorded in the result; (o) nothing is copied or stored through a pointer-typed field of a relay result. NOT decided: the value-level lattice for arbitrary documents, regexp semantics, round-trip equality of meaning.",
 		Technique: "guard/edge-deletion queries keyed by access path (tested-X-used-X, tier precedence), string-shape analysis, writer/reader field-table agreement of sibling marshalers, loop-exit path queries",
 		Rule:      "one obligation per dereference (a), per tiered store (b), per options call (c), per match site (d), per compiled specifier (e), per relay-set operation (f), per version arm (g), per fallback use (h), per marshaler pair (i)",
 	})
@@ -556,6 +556,48 @@ func runC10(p *core.Prog, r *core.Report, tier string) {
 			r.Check(w == nil, "C10.f", base+"|new-relay-only-if-not-merged", p.Pos(ci.Pos()), "a relay is generated only when it was not inherited", "a relay that was already merged can be generated a second time", p.WitnessText(w)...)
 		}
 		r.Check(gen, "C10.f", base+"|new-relays-generated", p.Pos(mergeLoop.Stmt.Pos()), "relays only named by the proposer entry are generated", "relays only named by the proposer entry are never added")
+		// every inherited relay the merge has looked at is recorded as dealt with — also the ones it drops as disabled:
+		// what is not recorded is generated again by the "new relays" pass
+		var marks []ssa.Instruction
+		core.EachInstr(f, func(in ssa.Instruction) {
+			if mu, ok := in.(*ssa.MapUpdate); ok {
+				if _, local := mu.Map.(*ssa.MakeMap); local {
+					if st, ok := mu.Map.Type().Underlying().(*types.Map).Elem().Underlying().(*types.Struct); ok && st.NumFields() == 0 {
+						marks = append(marks, in)
+					}
+				}
+			}
+		})
+		for mi, m := range marks {
+			var header *ssa.BasicBlock
+			for _, h := range f.Blocks {
+				if !h.Dominates(m.Block()) {
+					continue
+				}
+				back := false
+				for _, pr := range h.Preds {
+					if h.Dominates(pr) {
+						back = true
+					}
+				}
+				if back && (header == nil || header.Dominates(h)) {
+					header = h
+				}
+			}
+			if header == nil || len(header.Instrs) == 0 {
+				continue
+			}
+			isMark := func(x ssa.Instruction) bool {
+				for _, o := range marks {
+					if x == o {
+						return true
+					}
+				}
+				return false
+			}
+			w := core.PathQuery{Fn: f, From: header.Instrs[len(header.Instrs)-1], Target: func(x ssa.Instruction) bool { return x.Block() == header }, Avoid: isMark}.Find()
+			r.Check(w == nil, "C10.f", fmt.Sprintf("%s|every-inherited-relay-recorded#%d", base, mi+1), p.Pos(m.Pos()), "every pass of the merge loop records the relay as dealt with", "a pass of the merge loop can end without recording the relay as dealt with (e.g. the `continue` that drops a disabled relay): the relay is then generated anew by the pass that adds the proposer's own relays, so a relay the configuration disables is back in the validator's settings", p.WitnessText(w)...)
+		}
 	}
 
 	// ---- (k) legacy documents: a builder's relay list is used only when the builder is enabled ----
@@ -796,6 +838,52 @@ func runC10(p *core.Prog, r *core.Report, tier string) {
 	}
 	r.Floor("C10.n tier applications on relay objects", nApply, 2)
 	r.Hold("C10.n", "tiers-applied-least-specific-first", "", fmt.Sprintf("%d calls applying a tier to a relay object examined", nApply))
+
+	// ---- (o) the resolved relay settings point at configuration values, they never write through such a pointer: a
+	// pointer-typed field of a relay result (the public key) is assigned, not copied into — the pointee may be the
+	// configuration's own object, shared by every validator ----
+	nPtrW := 0
+	for _, f := range p.FuncsIn("services/blockrelay/v2") {
+		core.EachInstr(f, func(in ssa.Instruction) {
+			var dst ssa.Value
+			switch x := in.(type) {
+			case *ssa.Call:
+				if b, ok := x.Call.Value.(*ssa.Builtin); ok && b.Name() == "copy" && len(x.Call.Args) == 2 {
+					dst = x.Call.Args[0]
+				}
+			case *ssa.Store:
+				dst = x.Addr
+			}
+			if dst == nil {
+				return
+			}
+			// does dst lead, through a load of a pointer-typed field of a RelayConfig, into the pointee?
+			v := dst
+			for depth := 0; depth < 6 && v != nil; depth++ {
+				switch y := v.(type) {
+				case *ssa.Slice:
+					v = y.X
+					continue
+				case *ssa.IndexAddr:
+					v = y.X
+					continue
+				case *ssa.UnOp:
+					if fa, ok := y.X.(*ssa.FieldAddr); ok {
+						if id, _, ok := core.FieldOfAddr(fa); ok && strings.HasSuffix(id.Owner, "beaconblockproposer.RelayConfig") {
+							if _, isPtr := y.Type().Underlying().(*types.Pointer); isPtr {
+								nPtrW++
+								r.Violate("C10.o", fmt.Sprintf("%s|writes-through|%s#%d", core.FnKey(f), id.Name, nPtrW), p.Pos(in.Pos()), "relay field "+id.Name+" is written through (copy/store into the object it points at) instead of being assigned: the object may belong to the stored configuration, so one proposer's override changes the relay-level default every other validator resolves to")
+							}
+						}
+					}
+				}
+				break
+			}
+		})
+	}
+	if nPtrW == 0 {
+		r.Hold("C10.o", "pointer-fields-assigned-not-written-through", "", "no store or copy goes through a pointer-typed field of a relay result")
+	}
 
 	// ---- (g) version dispatch ----
 	if f := p.Func("services/blockrelay", "", "UnmarshalJSON"); f != nil {
